@@ -96,8 +96,10 @@ func (s *Store) Load(key uint) ([]byte, error) {
 func (s *Store) Save(key uint, value net.Buffers) error {
 	s.w.mu.Lock()
 	defer s.w.mu.Unlock()
-	before := s.w.Broker.Snapshot()
 	failed := s.gate('S')
+	// (the broker's state when the operation takes effect, not when a slow
+	// one was entered: other operations complete while it is parked)
+	before := s.w.Broker.Snapshot()
 	// The buffers are read when the (possibly slow) operation gets to them,
 	// not on entry: they are the caller's for the whole duration of the call.
 	n := 0
@@ -121,8 +123,9 @@ func (s *Store) Save(key uint, value net.Buffers) error {
 func (s *Store) Delete(key uint) error {
 	s.w.mu.Lock()
 	defer s.w.mu.Unlock()
+	failed := s.gate('D')
 	before := s.w.Broker.Snapshot()
-	if s.gate('D') {
+	if failed {
 		s.record(StoreOp{Kind: 'D', Key: key, Err: ErrStore, Before: before, After: s.w.Broker.Snapshot()})
 		return ErrStore
 	}
